@@ -105,3 +105,26 @@ Proof.
   destruct (run K toks false false M aeval ex td fuel n st) as [oU sU] eqn:EU. cbn [fst] in Ho. subst oU.
   exact (run_raise_agrees_with_source K toks M aeval ex td aevalP nameS fm rsS Hrb Ha Hg Hl Hk fuel n st ea t sU Hn EU).
 Qed.
+
+(* Corollary (with determinism of the reference semantics): what a rule's method returns at a position is determined by
+   the grammar and the tokens -- not by the fuel, nor by the rest of the state. *)
+Theorem results_determined K toks M aeval ex td rsS :
+  reads_back_as rsS M = true ->
+  (forall xs e vs, nodup_s xs = true -> Forall2 (fun x v => env_get e x = Some v) xs vs ->
+     aeval (default_text xs) e = Some (match vs with [v] => v | _ => VList vs end)) ->
+  (forall e v vs, env_get e "elem" = Some v -> env_get e "seq" = Some (VList vs) -> aeval "[elem] + seq" e = Some (VList (v :: vs))) ->
+  (forall s t, In t toks -> is_kind2 s = false -> expect_test K ex td s t = String.eqb (tstr t) s) ->
+  (forall s t, In t toks -> is_kind2 s = true -> expect_test K ex td s t = kind2_test K M s t) ->
+  forall f1 f2 n s1 s2 v1 v2 s1' s2', find_rule rsS n <> None -> pos s1 = pos s2 ->
+  run K toks false false M aeval ex td f1 n s1 = (Ok v1, s1') ->
+  run K toks false false M aeval ex td f2 n s2 = (Ok v2, s2') ->
+  v1 = v2 /\ pos s1' = pos s2'.
+Proof.
+  intros Hrb Ha Hg Hl Hk f1 f2 n s1 s2 v1 v2 s1' s2' Hn Hp R1 R2.
+  destruct (run_agrees_with_source K toks M aeval ex td (fun _ _ _ _ _ => None) (fun _ _ => None) "" rsS Hrb Ha Hg Hl Hk f1 n s1 v1 s1' Hn R1) as (r1 & P1 & A1).
+  destruct (run_agrees_with_source K toks M aeval ex td (fun _ _ _ _ _ => None) (fun _ _ => None) "" rsS Hrb Ha Hg Hl Hk f2 n s2 v2 s2' Hn R2) as (r2 & P2 & A2).
+  rewrite Hp in P1. pose proof (peg_item_det _ _ _ _ _ _ _ _ _ _ _ P1 _ P2) as E. subst r2.
+  destruct A1 as [[T1 ->]|[-> [-> Q1]]]; destruct A2 as [[T2 E2]|[-> [E2 Q2]]]; try discriminate E2.
+  - injection E2 as -> ->. split; reflexivity.
+  - split; [reflexivity|]. rewrite Q1, Q2. exact Hp.
+Qed.
